@@ -679,7 +679,7 @@ static void decimalLattice(Ctx& C, int nv, const std::vector<int>& tenths)
   });
 }
 VF_PART(decimal_tri) { decimalLattice(C, 3, C.thorough() ? std::vector<int>{1, 2, 3, 6, 7, 9, 12, 20} : std::vector<int>{2, 3, 7, 9, 12, 20}); }
-VF_PART(decimal_quad) { decimalLattice(C, 4, C.thorough() ? std::vector<int>{2, 3, 7, 9, 12, 20} : std::vector<int>{2, 3, 9, 20}); }
+VF_PART(decimal_quad) { decimalLattice(C, 4, C.thorough() ? std::vector<int>{2, 3, 7, 9, 20} : std::vector<int>{2, 3, 9, 20}); }
 
 // ---- translated / scaled copies: the answer must not depend on where the polygon sits (large coordinates) -----------
 VF_PART(translated)
